@@ -35,6 +35,14 @@ func resignPhase(cfg *config.Config) {
 		{"msi", "msi", filepath.Join(pk, "dummy.msi"), nil},
 		{"dmg", "dmg", filepath.Join(pk, "dummy.dmg"), nil},
 		{"macho", "mach-o", filepath.Join(pk, "slimfile.app/dummyapp"), nil},
+		// the zip-based types travel as a tar of directory + contents: an input that
+		// already carries a signature (a trailer behind the end record for XAP, a
+		// signing block for APK, signature parts for the others) is the interesting one
+		{"xap", "xap", filepath.Join(pk, "dummy.xap"), nil},
+		{"jar", "jar", filepath.Join(pk, "hello.jar"), nil},
+		{"apk", "apk", filepath.Join(pk, "dummy.apk"), nil},
+		{"vsix", "vsix", filepath.Join(pk, "VSIXProject1.vsix"), nil},
+		{"appx", "appx", filepath.Join(pk, "App1_1.0.3.0_x64.appx"), nil},
 	}
 	tokBig, err := relicx.OpenTokenByKey(cfg, "rsaAbig")
 	if err != nil {
